@@ -20,6 +20,7 @@ CONSTANTS
   EKeys = {1, 2, 3}
   UseMemo = FALSE
   MemoClearedBy = {}
+  RefusedLeaksKey = FALSE
 SPECIFICATION ESpec
 INVARIANT RendersCurrent
 INVARIANT NamesUnique
